@@ -210,6 +210,62 @@ func c13Flag(c *Ctx) {
 			}
 		}
 	}
+	// every construction of a flag-carrying struct from the zero value must set the flag:
+	// an omitted field is "false", i.e. writable
+	for _, fn := range c.P.RepoFuncs(an.LibraryPkg) {
+		for _, b := range fn.Blocks {
+			for _, in := range b.Instrs {
+				al, ok := in.(*ssa.Alloc)
+				if !ok {
+					continue
+				}
+				st, ok := al.Type().Underlying().(*types.Pointer).Elem().Underlying().(*types.Struct)
+				if !ok {
+					continue
+				}
+				var flag *types.Var
+				for i := 0; i < st.NumFields(); i++ {
+					if f := st.Field(i); f == dbRO || f == ooRO {
+						flag = f
+					}
+				}
+				if flag == nil {
+					continue
+				}
+				whole, setsFlag, fieldStores := false, false, 0
+				for _, ref := range *al.Referrers() {
+					switch r := ref.(type) {
+					case *ssa.Store:
+						if r.Addr == al {
+							whole = true
+						}
+					case *ssa.FieldAddr:
+						for _, rr := range *r.Referrers() {
+							if s2, ok := rr.(*ssa.Store); ok && s2.Addr == r {
+								fieldStores++
+								if an.FieldVar(r.X.Type(), r.Field) == flag {
+									setsFlag = true
+								}
+							}
+						}
+					}
+				}
+				if whole {
+					continue // copied from another value: the flag travels with it
+				}
+				if fieldStores == 0 {
+					continue // a plain variable that is filled elsewhere (not a literal)
+				}
+				tn := an.NamedOf(al.Type().Underlying().(*types.Pointer).Elem())
+				tname := "struct"
+				if tn != nil {
+					tname = tn.Obj().Name()
+				}
+				c.R.Cond(setsFlag, rule, fmt.Sprintf("%s: %s literal sets %s", core.FuncName(fn), tname, flag.Name()), c.P.Pos(al.Pos()),
+					"the read-only flag is set explicitly when the struct is built", "a "+tname+" is built field by field without its read-only flag: the result is writable whatever the source was")
+			}
+		}
+	}
 	// whole-struct stores "*p = DB{...}" cannot set readonly differently: look for stores of kv.DB values
 	// whose address is not a fresh local (Clone copies *s, which preserves the flag).
 	openKV := c.P.LookupFunc("", "", "OpenKV")
